@@ -48,7 +48,7 @@ def check(ctx: Ctx) -> None:
     for f in ctx.pool_funcs("stop_all"):
         rets = ctx.distinct_sites(ctx.nodes(f, lambda n: n.op == "return" and n.ast.value is not None))
         for r in rets:
-            v = r.ast.value
+            v = ctx.vals.resolve(f, r.ast.value)
             ok = None
             if isinstance(v, ast.Call) and any(t.name == "stop" for t in ctx.an.scope(f).callee(v).targets) and len(v.args) == 1:
                 txt = ctx.vals.canon(f, v.args[0]).replace(" ", "")
@@ -61,7 +61,7 @@ def check(ctx: Ctx) -> None:
         if not e.path.endswith("._tasks_running"):
             continue
         n += 1
-        hosts = ctx.hosts(e.node.func)
+        hosts = ctx.hosts_of(e.node)
         if e.kind == "insert":
             rep.ob("R14.2", "tasks are filed as running only by _start_task, i.e. in creation order", hosts <= {"_start_task"}, node=e.node, detail=f"on behalf of {sorted(hosts)}")
         else:
